@@ -19,7 +19,7 @@ package c16
 //	(A) no request is ever handed to the transport for a URL the policy forbids;
 //	(B) redirects off: no request beyond the first URL;
 //	(C) first URL forbidden: zero requests, one attempt, dead with reason policy_denied;
-//	(D) redirects on, URLs 0..j-1 allowed, URL j forbidden: the attempt that meets the denial is the last one: the
+//	(D) redirects on, URLs 0..j-1 allowed (and plainly spelled), URL j forbidden: the attempt that meets the denial is the last one: the
 //	    message is dead with reason policy_denied, attempts = earlier 503 attempts + 1, URL 0 was requested once per
 //	    attempt, URLs 1..j-1 once, URL j.. never;
 //	(E) every URL allowed (plain spellings, public addresses): delivered (acked) by the first attempt that gets there.
@@ -378,6 +378,12 @@ func judgeChain(dc DispCase, res chainResult) chainJudgement {
 		// (D)
 		where := posLabel(denyAt)
 		j.class = where + "-denied:" + reason
+		if !allPlain {
+			// a URL before the denied one is spelled oddly (userinfo, upper case, trailing dot): an implementation may be
+			// stricter about it than the statement and never get to the denied hop; (A) and (B) only
+			j.class = where + "-denied-behind-odd-spelling:" + reason
+			return j
+		}
 		if j.unjudged != "" {
 			return j
 		}
